@@ -1,8 +1,13 @@
 //! Runtime-verification harness for routinator.
 
+pub mod alloc;
 pub mod core;
 pub mod hooks;
+pub mod iso;
 pub mod pgen;
 pub mod srv;
 pub mod util;
 pub mod props;
+
+#[global_allocator]
+static GLOBAL: alloc::Monitor = alloc::Monitor;
